@@ -1,5 +1,6 @@
 from __future__ import annotations
 
+import io
 import traceback
 from typing import TYPE_CHECKING
 from typing import Any
@@ -7,6 +8,7 @@ from typing import Any
 from chameleon.config import SOURCE_EXPRESSION_MARKER_LENGTH as LENGTH
 from chameleon.tokenize import Token
 from chameleon.utils import create_formatted_exception
+from chameleon.utils import read_bytes
 from chameleon.utils import safe_native
 
 
@@ -330,18 +332,18 @@ class ExceptionFormatter:
             out.append(" - Location:   (line %d: col %d)" % (line, column))
 
             if filename and not filename.startswith('<') and line and column:
+                # Note that the template file can be in any of the
+                # supported encodings.
                 try:
-                    f = open(filename)
-                except OSError:
+                    with open(filename, 'rb') as f:
+                        source = read_bytes(f.read(), 'utf-8')[0]
+                except (OSError, UnicodeError, LookupError):
                     pass
                 else:
-                    lines = iter_source_marker_lines(
-                        iter(f), expression, line, column
-                    )
-                    try:
-                        out.extend(lines)
-                    finally:
-                        f.close()
+                    out.extend(iter_source_marker_lines(
+                        io.StringIO(source, newline=None),
+                        expression, line, column
+                    ))
 
         out.append(" - Arguments:  %s" % "\n".join(formatted_args))
 
